@@ -133,21 +133,48 @@ def stable(v, depth=0):
     return f"<{type(v).__name__}>"
 
 
+def _inst_attrs(s):
+    """Instance attributes, with or without a __dict__ (slots)."""
+    d = {}
+    for klass in type(s).__mro__:
+        for k in getattr(klass, "__slots__", ()) or ():
+            if isinstance(k, str) and hasattr(s, k):
+                d[k] = getattr(s, k)
+    d.update(getattr(s, "__dict__", {}))
+    return d
+
+
 def canon(s):
-    """Canonical key of a live schedule object."""
-    g = getattr(s, "iter", None)
-    if g is None:
+    """Canonical key of a live schedule object: the state of its generator
+    (found by type among the instance attributes, whatever it is called)
+    plus the remaining instance attributes.  If an implementation keeps its
+    state somewhere this cannot see, states are merged and the exploration
+    merely covers less -- no oracle depends on two keys being different
+    except the "changed although rejected" ones, which then say nothing."""
+    import types
+    attrs = _inst_attrs(s)
+    gens = sorted((k for k, v in attrs.items()
+                   if isinstance(v, types.GeneratorType)),
+                  key=lambda k: (k != "iter", k))
+    if not gens:
         gen = ("unstarted",)
-    elif g.gi_frame is None:
-        gen = ("finished",)
     else:
-        fr = g.gi_frame
-        loc = {k: v for k, v in fr.f_locals.items() if k != "self"}
-        gen = ("live", fr.f_lasti,
-               tuple(sorted((k, stable(v)) for k, v in loc.items())))
-    attrs = tuple(sorted((k, stable(v)) for k, v in vars(s).items()
-                         if k not in ("iter", "_schedule")))
-    return (gen, attrs)
+        gen = ()
+        for gk in gens:
+            g = attrs[gk]
+            if g.gi_frame is None:
+                gen += (("finished",),)
+            else:
+                fr = g.gi_frame
+                loc = {k: v for k, v in fr.f_locals.items() if k != "self"}
+                gen += (("live", fr.f_lasti,
+                         tuple(sorted((k, stable(v))
+                                      for k, v in loc.items()))),)
+        if len(gen) == 1:
+            gen = gen[0]
+    rest = tuple(sorted((k, stable(v)) for k, v in attrs.items()
+                        if k not in gens and k != "_schedule"))
+    return (gen, rest)
 
 
 class Replayed:
